@@ -187,7 +187,35 @@ func lexContract(src string) ([]ctok, error) {
 }
 
 // "0..n" would lex "0." as a float: put spaces around the range operator first.
-func normRange(src string) string { return strings.ReplaceAll(src, "..", " .. ") }
+func normRange(src string) string {
+	if !strings.Contains(src, "..") {
+		return src
+	}
+	var b strings.Builder
+	quote := byte(0)
+	for i := 0; i < len(src); i++ {
+		c := src[i]
+		switch {
+		case quote != 0:
+			b.WriteByte(c)
+			if c == '\\' && quote != '`' && i+1 < len(src) {
+				i++
+				b.WriteByte(src[i])
+			} else if c == quote {
+				quote = 0
+			}
+		case c == '"' || c == '\'' || c == '`':
+			quote = c
+			b.WriteByte(c)
+		case c == '.' && i+1 < len(src) && src[i+1] == '.':
+			b.WriteString(" .. ")
+			i++
+		default:
+			b.WriteByte(c)
+		}
+	}
+	return b.String()
+}
 
 func ParseCExpr(src string) (e CExpr, err error) {
 	src = normRange(src)
